@@ -470,6 +470,8 @@ def _search_loop(E, reg, contract, fn, owner, ptys, rng, todo, compiled, reqs, g
                 continue
             E.search_evals = getattr(E, "search_evals", {})
             E.search_evals[oid] = E.search_evals.get(oid, 0) + 1
+            E.search_variety = getattr(E, "search_variety", {})
+            E.search_variety.setdefault(oid, set()).add(_short(result)[:80])
             if _STATS is not None and oid in _STATS:
                 _STATS[oid]["evaluations"] += 1
                 if result:
@@ -592,6 +594,7 @@ def differential(E, reg, qualname, contract, seed=0, tries=200):
     import contextlib
     logging.disable(logging.CRITICAL)
     runs, diff = 0, None
+    outcomes = set()
     try:
         with contextlib.redirect_stderr(io.StringIO()), contextlib.redirect_stdout(io.StringIO()):
             for _ in range(tries):
@@ -629,6 +632,7 @@ def differential(E, reg, qualname, contract, seed=0, tries=200):
                         pass
                     continue
                 runs += 1
+                outcomes.add(outs[0][:2])
                 if outs[0] != outs[1] and diff is None:
                     diff = {"inputs": {k: _short(v) for k, v in args.items()}, "baseline": outs[0][:2], "current": outs[1][:2],
                             "summary": f"on {_short(args)} the baseline gives {outs[0][0]} {outs[0][1][:120]}, the current code {outs[1][0]} {outs[1][1][:120]}"}
@@ -637,4 +641,6 @@ def differential(E, reg, qualname, contract, seed=0, tries=200):
         logging.disable(logging.NOTSET)
         for owner_obj, name, orig in patches:
             setattr(owner_obj, name, orig)
-    return {"runs": runs, "difference": diff}
+    # a sample in which the baseline always does the same thing (a function of the environment rather than of its arguments, a
+    # generator that never reaches the interesting inputs) is no evidence of equivalence
+    return {"runs": runs if len(outcomes) >= 3 else 0, "difference": diff, "distinct_outcomes": len(outcomes)}
